@@ -73,9 +73,9 @@ BLOCK_ASSUME = ['the EVM interpreter enters only as an execution summary (vmErr,
 
 PROPS = {
     'C04': dict(
-        lean_modules=['Model.World', 'Model.StateDB', 'Model.Block', 'Proofs.World', 'Properties.C04', 'Properties.C05', 'Facts.Block'],
+        lean_modules=['Model.World', 'Model.StateDB', 'Model.Block', 'Proofs.World', 'Properties.C04', 'Properties.C05', 'Facts.Block', 'Facts.TieFee', 'Facts.TieTransition', 'Facts.TieMeta'],
         facts=['*'],
-        theorems=['C04_transfer_conserves', 'C04_addBalance', 'C04_subBalance', 'C04_refund_conserves', 'C04_evmModule_zero',
+        theorems=['tie_effective_fee', 'tie_refund_gas', 'tie_refund_is_model', 'fact_translated_all', 'C04_transfer_conserves', 'C04_addBalance', 'C04_subBalance', 'C04_refund_conserves', 'C04_evmModule_zero',
                   'C04_supply', 'C04_sender_collector', 'C05_collector_gain', 'mintTo_effect', 'burnFrom_effect', 'sendCoins_bal',
                   'fact_balance_sites', 'fact_refund_mints', 'fact_refund_burnt_from_collector'],
         engines=[dict(name='block', test='TestEngineBlock', quick=500, thorough=6000, thorough_seeds=3),
@@ -84,17 +84,17 @@ PROPS = {
         rule=BLOCK_RULE, assumptions=BLOCK_ASSUME + ['bank keeps supply = sum of balances (x/bank invariant, trusted); per-tx supply and balance deltas are reconstructed from the bank events of each ExecTxResult'],
     ),
     'C05': dict(
-        lean_modules=['Model.FeeMarket', 'Model.Block', 'Properties.C05', 'Facts.Block', 'Facts.C09'],
+        lean_modules=['Model.FeeMarket', 'Model.Block', 'Properties.C05', 'Facts.Block', 'Facts.C09', 'Facts.TieFee', 'Facts.TieTransition', 'Facts.TieMeta'],
         facts=['*'],
-        theorems=['C05_charge', 'C05_charge_self', 'C05_rejected_free', 'C05_refund_cap', 'C05_bounds', 'C05_result_eq_receipt',
+        theorems=['tie_effective_gas_price', 'tie_effective_fee', 'tie_refund_gas', 'tie_refund_is_model', 'tie_gas_used', 'tie_buy_gas', 'tie_intrinsic_gas', 'tie_intrinsic_ge_txgas', 'fact_translated_all', 'C05_charge', 'C05_charge_self', 'C05_rejected_free', 'C05_refund_cap', 'C05_bounds', 'C05_result_eq_receipt',
                   'C05_collector_gain', 'C05_one_price', 'stepEth_cases', 'fact_refund_quotient', 'fact_min_gas', 'fact_gas_meter_reset', 'fact_one_base_fee'],
         engines=[dict(name='block', test='TestEngineBlock', quick=500, thorough=6000, thorough_seeds=3)],
         rule=BLOCK_RULE, assumptions=BLOCK_ASSUME + ['C05_bounds lower bound assumes intrinsic + refundCounter <= gas used before refund (geth gas table: every refunded unit was paid for); E-block checks intrinsic <= gasUsed on every committed tx'],
     ),
     'C06': dict(
-        lean_modules=['Model.Block', 'Model.Ante', 'Properties.C05', 'Properties.C06', 'Properties.C07', 'Facts.Block', 'Facts.Ante'],
+        lean_modules=['Model.Block', 'Model.Ante', 'Properties.C05', 'Properties.C06', 'Properties.C07', 'Facts.Block', 'Facts.Ante', 'Facts.TieTransition', 'Facts.TieMeta'],
         facts=['*'],
-        theorems=['C06_authorised', 'C06_seq_plus_one', 'C06_seq_unchanged', 'C06_seq_monotone', 'C06_no_replay', 'C06_seq_counts',
+        theorems=['tie_pre_check_accepts', 'fact_translated_all', 'fact_uninterpreted', 'C06_authorised', 'C06_seq_plus_one', 'C06_seq_unchanged', 'C06_seq_monotone', 'C06_no_replay', 'C06_seq_counts',
                   'C07_handler_unreachable', 'C07_cosmos_lane', 'fact_nonce_flag_used', 'fact_ante_order', 'fact_ante_chain', 'fact_disabled_list'],
         engines=[dict(name='block', test='TestEngineBlock', quick=500, thorough=6000, thorough_seeds=3),
                  dict(name='ante', test='TestEngineAnte', quick=250, thorough=3000, thorough_seeds=2),
@@ -124,9 +124,9 @@ PROPS = {
                      'the interpreter uses the StateDB only as snapshot; body; revert-on-failure (evm.Call/Create) — call-tree theorem; arbitrary API sequences are covered by C03_revert_exact'],
     ),
     'C09': dict(
-        lean_modules=['Model.FeeMarket', 'Model.Block', 'Properties.C09', 'Facts.C09'],
+        lean_modules=['Model.FeeMarket', 'Model.Block', 'Properties.C09', 'Facts.C09', 'Facts.TieFee', 'Facts.TieFeeMarket', 'Facts.TieTransition', 'Facts.TieMeta'],
         facts=['*'],
-        theorems=['C09_unchanged_at_target', 'C09_increase_exact', 'C09_decrease_exact', 'C09_increase_strict',
+        theorems=['tie_geth_calc_base_fee', 'tie_calculate_base_fee', 'tie_min_gas_price_deliver', 'tie_min_gas_price_ge', 'tie_priority_refuses', 'tie_priority_panics_on_empty', 'tie_single_fee', 'tie_pre_check_accepts', 'fact_translated_all', 'C09_unchanged_at_target', 'C09_increase_exact', 'C09_decrease_exact', 'C09_increase_strict',
                   'C09_decrease_le', 'C09_ge_floor_min', 'C09_total_no_divzero', 'C09_total', 'C09_keeper_exact',
                   'C09_zero_target_keeps', 'C09_admission', 'C09_admission_implies_precheck',
                   'fact_elasticity', 'fact_changeDenom', 'fact_london_always', 'fact_feemarket_endblock_last', 'fact_feemarket_after_gov', 'fact_maxgas_guard', 'fact_basefee_guards', 'fact_one_base_fee'],
@@ -227,9 +227,9 @@ PROPS['C19'] = dict(
 )
 
 PROPS['C20'] = dict(
-    lean_modules=['Model.EventSys', 'Model.Block', 'Model.FeeMarket', 'Properties.C06', 'Properties.C09', 'Properties.C13', 'Model.LogFilter', 'Properties.C20', 'Properties.C20Conc', 'Properties.C20Filter', 'Facts.EventSys', 'Facts.C09', 'Facts.Panics'],
+    lean_modules=['Model.EventSys', 'Model.Block', 'Model.FeeMarket', 'Properties.C06', 'Properties.C09', 'Properties.C13', 'Model.LogFilter', 'Properties.C20', 'Properties.C20Conc', 'Properties.C20Filter', 'Facts.EventSys', 'Facts.C09', 'Facts.Panics', 'Facts.TieFeeMarket', 'Facts.TieQuery', 'Facts.TieMeta'],
     facts=['*'],
-    theorems=['C20_rejected_is_noop', 'C20_ante_panic_charges_block_gas_only', 'C20_dropped_is_noop', 'C20_isolation', 'C20_isolation_replace', 'runItems_append',
+    theorems=['tie_calculate_base_fee', 'tie_bin_search_total', 'fact_translated_all', 'C20_rejected_is_noop', 'C20_ante_panic_charges_block_gas_only', 'C20_dropped_is_noop', 'C20_isolation', 'C20_isolation_replace', 'runItems_append',
               'C09_total', 'C09_total_no_divzero', 'C09_zero_target_keeps', 'C13_endBlock_total', 'C13_inv_block',
               'C20_no_send_on_closed', 'inv_step', 'inv_run', 'C20_original_crashes', 'C20_original_drops', 'C20_lock_needed', 'C20_index_needed',
               'C20_filter_total', 'C20_filterLogs_total', 'C20_guard_needed', 'topicLoop_total', 'fact_filterlogs_guards', 'fact_basefee_guards', 'fact_one_base_fee', 'fact_maxgas_guard', 'fact_block_panic_sites', 'fact_consume_locks_across_send', 'fact_install_shape', 'fact_uninstall_shape', 'fact_join_indexes', 'fact_context_guarded'],
@@ -257,9 +257,9 @@ PROPS['C17'] = dict(
 )
 
 PROPS['C15'] = dict(
-    lean_modules=['Model.World', 'Model.StateDB', 'Proofs.World', 'Properties.C15', 'Facts.StateDB'],
+    lean_modules=['Model.World', 'Model.StateDB', 'Proofs.World', 'Properties.C15', 'Facts.StateDB', 'Facts.TieTransition', 'Facts.TieMeta'],
     facts=['*'],
-    theorems=['C15_destroy_needs_unprotected', 'C15_delete_complete', 'C15_commit_keeps_protected', 'C15_no_silent_delete',
+    theorems=['tie_destroy_guard', 'tie_destroyable', 'fact_translated_all', 'fact_uninterpreted', 'C15_destroy_needs_unprotected', 'C15_delete_complete', 'C15_commit_keeps_protected', 'C15_no_silent_delete',
               'C15_locked_never_spent', 'C15_subBalance_respects_lock', 'destroyAccount_ok', 'burnAll_keeps', 'destroyAccount_others',
               'protected_not_destroyable', 'fact_destroy_guard_block_time', 'fact_destroy_removes_everything', 'fact_commit_sorted'],
     engines=[dict(name='statedb', test='TestEngineStatedb', quick=6000, thorough=120000, thorough_seeds=3),
@@ -271,9 +271,9 @@ PROPS['C15'] = dict(
 )
 
 PROPS['C01'] = dict(
-    lean_modules=['Model.StateDB', 'Properties.C01', 'Facts.Determinism', 'Facts.StateDB'],
+    lean_modules=['Model.StateDB', 'Properties.C01', 'Facts.Determinism', 'Facts.StateDB', 'Facts.TieTransition', 'Facts.TieFee', 'Facts.TieMeta'],
     facts=['*'],
-    theorems=['C01_touched_order_irrelevant', 'C01_commit_order_independent', 'C01_map_copy_order_independent', 'C01_deliver_ignores_node_config',
+    theorems=['tie_destroy_guard', 'tie_min_gas_price_deliver', 'fact_translated_all', 'C01_touched_order_irrelevant', 'C01_commit_order_independent', 'C01_map_copy_order_independent', 'C01_deliver_ignores_node_config',
               'canon_perm', 'sorted_ext', 'setInsert_sorted', 'copy_get', 'find_perm',
               'fact_census_time_now', 'fact_census_map_range', 'fact_census_go_stmt', 'fact_census_no_rand_no_env',
               'fact_commit_sorted', 'fact_destroy_guard_block_time', 'fact_pkg_vars', 'fact_mem_fields', 'fact_to_derefs_guarded', 'fact_key_prefixes_no_spare_capacity'],
@@ -315,9 +315,9 @@ PROPS['C02'] = dict(
 )
 
 PROPS['C08'] = dict(
-    lean_modules=['Model.Query', 'Model.CDbGeneric', 'Properties.C08', 'Facts.Query'],
+    lean_modules=['Model.Query', 'Model.CDbGeneric', 'Properties.C08', 'Facts.Query', 'Facts.TieQuery', 'Facts.TieMeta'],
     facts=['*'],
-    theorems=['C08_estimateGas', 'C08_estimateGas_capped', 'C08_stale_cap_returns_unexecutable', 'searchBound_le_cap', 'fact_estimate_gas_assigns', 'C08_estimate', 'C08_estimate_range', 'C08_no_commit_no_write', 'binSearch_spec', 'step_orig', 'fact_commit_literals'],
+    theorems=['tie_bin_search', 'tie_bin_search_total', 'fact_translated_all', 'C08_estimateGas', 'C08_estimateGas_capped', 'C08_stale_cap_returns_unexecutable', 'searchBound_le_cap', 'fact_estimate_gas_assigns', 'C08_estimate', 'C08_estimate_range', 'C08_no_commit_no_write', 'binSearch_spec', 'step_orig', 'fact_commit_literals'],
     engines=[dict(name='binsearch', test='TestEngineBinsearch', quick=3000, thorough=200000, thorough_seeds=2, functional=True),
              dict(name='query', test='TestEngineQuery', quick=100, thorough=2500, thorough_seeds=2, no_model=True)],
     rule='E-binsearch: the real evmtypes.BinSearch on arbitrary executable tables (monotone, random, mostly failing, gapped, with consensus errors) vs the Lean binSearch. E-query: on committed states, eth_call / estimateGas / traceTx (with predecessors, commit=true inside the query context) / traceBlock / evm, cpc, feemarket, vauth gRPC queries through BaseApp.Query, then Simulate, CheckTx new and re-check of the same call as a signed transaction (9 call kinds: storage set / clear, logs, a gas-dependent branch, ERC-20 precompile transfer, precompile writes with a reverted frame, self-destruct, creation, revert); every key and value of every KV store plus the working hash is digested before and after each request; the call is then delivered (same gas limit) and once more with the estimate as gas limit; non-trivial = every line; distinct by op-line hash',
